@@ -27,7 +27,9 @@ WORDS = ["zzz", "qqq", "lorem", "beers", "burgers", "gift", "pizza", "buy", "kwy
          "review", "yoga", "lunch", "besprechung", "sync", "flight", "paris", "report", "send", "pay", "rent", "gym", "party", "zahnarzt",
          "geburtstag", "urlaub", "büro", "workshop", "deploy", "backup", "taxes", "groceries", "vet", "haircut", "books", "code", "ship", "plan",
          "Write", "READ", "Walk", "meeting", "call", "milk", "dentist", "follow-up", "x-ray", "e-mail", "check-in", "kick-off-termin"]
-TAGS = ["work", "Family", "a1", "x-y", "_u", "To_Do", "p-1-2", "URGENT", "q", "home_office", "r2d2", "t-"]
+TAGS = ["work", "Family", "a1", "x-y", "_u", "To_Do", "p-1-2", "URGENT", "q", "home_office", "r2d2", "t-",
+        # labels that are proper prefixes of other labels (in either text order)
+        "work-2", "a1b", "x-y-z", "q2", "To_Do_2", "zq", "zq-1"]
 SEPS = [" ", " ", " ", "  ", ", ", "; ", " , ", ",", "\t", " ( ", ") ", " [", "] ", "\n", " "]
 TSS = ["2021-03-10T12:43:30", "2020-02-29T23:59:00", "2019-12-31T08:00:00", "2024-02-28T23:10:00"]
 
